@@ -122,18 +122,34 @@ def _strip_lean_comments(src: str) -> str:
     return "".join(out)
 
 
-def lean_sources():
-    res = []
-    for root, _, files in os.walk(os.path.join(LEAN_DIR, "NipyVerif")):
-        for f in files:
-            if f.endswith(".lean"):
-                res.append(os.path.join(root, f))
-    return sorted(res)
+def lean_sources(modules=None):
+    """Lean files to audit: the transitive NipyVerif.* import closure of `modules`
+    (all files under lean/NipyVerif when `modules` is None)."""
+    if modules is None:
+        res = []
+        for root, _, files in os.walk(os.path.join(LEAN_DIR, "NipyVerif")):
+            for f in files:
+                if f.endswith(".lean"):
+                    res.append(os.path.join(root, f))
+        return sorted(res)
+    seen, todo = set(), list(modules)
+    while todo:
+        m = todo.pop()
+        if m in seen:
+            continue
+        seen.add(m)
+        path = os.path.join(LEAN_DIR, m.replace(".", "/") + ".lean")
+        if not os.path.exists(path):
+            continue
+        for mm in re.finditer(r"^\s*import\s+(NipyVerif\.[\w.]+)", _strip_lean_comments(open(path).read()), re.M):
+            todo.append(mm.group(1))
+    return sorted(os.path.join(LEAN_DIR, m.replace(".", "/") + ".lean") for m in seen
+                  if os.path.exists(os.path.join(LEAN_DIR, m.replace(".", "/") + ".lean")))
 
 
-def forbidden_tokens():
+def forbidden_tokens(modules=None):
     hits = []
-    for p in lean_sources():
+    for p in lean_sources(modules):
         txt = _strip_lean_comments(open(p).read())
         for m in FORBIDDEN.finditer(txt):
             hits.append(f"{os.path.relpath(p, LEAN_DIR)}: {m.group(0).strip()}")
@@ -409,7 +425,7 @@ def run_check(pid, tier="quick", replay=None):
         if not ok:
             errs = [l for l in blog.splitlines() if "error" in l][:20]
             broken.append("lake build failed: " + " | ".join(errs))
-        hits = forbidden_tokens()
+        hits = forbidden_tokens(check.lean_modules)
         if hits:
             broken.append("forbidden tokens: " + "; ".join(hits[:10]))
         if ok:
@@ -549,8 +565,9 @@ def run_check(pid, tier="quick", replay=None):
         "wall_s": round(time.time() - t0, 2),
         "violations": len(violations),
     }
-    os.makedirs(os.path.join(VERIF, "evidence"), exist_ok=True)
-    with open(os.path.join(VERIF, "evidence", f"{pid}.json"), "w") as f:
+    evdir = os.environ.get("VERIF_EVIDENCE_DIR") or os.path.join(VERIF, "evidence")
+    os.makedirs(evdir, exist_ok=True)
+    with open(os.path.join(evdir, f"{pid}.json"), "w") as f:
         json.dump(ev, f, indent=1, default=str)
 
     for l in log:
